@@ -29,17 +29,22 @@ func fsmState.shouldApply
 // ---- C07: one apply = exactly one write, which carries trees + state + metadata ----------
 
 func RaftNode.applyAdd
-  props C05 C07 C11
+  props C05 C07 C09 C11
   requires len(hashes) > 0 && state != nil && n.state != nil
-  requires n.balloon != nil && n.balloon.historyTree != nil && n.balloon.hyperTree != nil && !isnil(n.db) && !isnil(n.log) && n.metrics != nil
+  requires n.balloon != nil && HistLive(n.balloon.historyTree) && n.balloon.hyperTree != nil && !isnil(n.db) && !isnil(n.log) && n.metrics != nil
   may_panic
-  modifies everything, mutateCalls, lastMutations, lastMetadata, lastWriteCarriesState
+  modifies everything, mutateCalls, lastMutations, lastMetadata, lastWriteCarriesState, cachePuts
   ensures C07/exactly-one-write: mutateCalls == old(mutateCalls) + 1
   ensures C07/state-after-write: n.state == state
   ensures C07/state-in-the-same-batch: lastWriteCarriesState
   // what is encoded for that write is the state AFTER this entry (the state before it would make a
   // restarted node apply the entry again: its events twice, under new versions)
   at fsmState.encode assert C05,C07/stored-state-is-the-new-state: arg0 == state
+  // C09: the write is labelled with the versions it spans - from the last version applied before it
+  // to the last version of this entry. The transfer filter of FetchSnapshot decides from these labels
+  // which batches continue a follower's position: a label one too high makes it take the NEXT
+  // one-event batch for already shipped and skip it without reporting a gap.
+  at VersionMetadata.encode assert C09/batch-is-labelled-with-the-versions-it-spans: arg0 != nil && arg0.PreviousVersion == n.state.BalloonVersion && arg0.NewVersion == state.BalloonVersion
   ensures C05/balloon-advanced: n.balloon.version == old(n.balloon.version) + uint64(len(hashes))
   ensures result != nil
 
@@ -49,9 +54,9 @@ func RaftNode.applyAdd
 func RaftNode.Apply
   props C05 C07 C11
   requires l != nil && len(l.Data) >= 1 && n.state != nil
-  requires n.balloon != nil && n.balloon.historyTree != nil && n.balloon.hyperTree != nil && !isnil(n.db) && !isnil(n.log) && n.metrics != nil
+  requires n.balloon != nil && HistLive(n.balloon.historyTree) && n.balloon.hyperTree != nil && !isnil(n.db) && !isnil(n.log) && n.metrics != nil
   may_panic
-  modifies everything, mutateCalls, lastMutations, lastMetadata, lastWriteCarriesState
+  modifies everything, mutateCalls, lastMutations, lastMetadata, lastWriteCarriesState, cachePuts
   ensures C07/at-most-one-write: mutateCalls == old(mutateCalls) || mutateCalls == old(mutateCalls) + 1
   ensures C07/replayed-entry-writes-nothing: old(n.state.Index) != 0 && old(l.Index) <= old(n.state.Index) ==> mutateCalls == old(mutateCalls)
 
@@ -82,7 +87,12 @@ func RaftNode.AddBulk
   ensures C17/what-was-sent-is-what-was-issued: isnil(result_1) ==> forall k int :: 0 <= k && k < len(result_0) ==> sameSnap(sentSnap(n, old(sends[n.snapshotsCh]) + k), result_0[k])
   // ASSUMED (C05 for the balloon, carried through raft): one snapshot per event
   assumes isnil(result_1) ==> len(result_0) == len(bulk)
+  // C05: ONE digest per event of the request is proposed, in request order (a bulk "tidied" before
+  // the proposal - repeated events dropped, say - comes back with fewer snapshots than events, and
+  // the caller pairs snapshots with events by position)
+  at command.encode assert C05/one-digest-per-event-is-proposed: len(eventHashBulk) == len(bulk)
   loop 1 modifies nothing
+  loop 1 invariant -1 <= rangeindex && rangeindex < len(bulk) && len(eventHashBulk) == rangeindex + 1
   loop 2 modifies sends, sentv
   loop 2 invariant C17/one-send-per-iteration: -1 <= rangeindex && rangeindex < len(snapshotBulk) && sends[n.snapshotsCh] == old(sends[n.snapshotsCh]) + rangeindex + 1
   loop 2 invariant C17/sent-so-far-are-the-issued-ones: forall k int :: 0 <= k && k <= rangeindex ==> allocated(sentSnap(n, old(sends[n.snapshotsCh]) + k)) && sameSnap(sentSnap(n, old(sends[n.snapshotsCh]) + k), snapshotBulk[k])
